@@ -59,7 +59,7 @@ def gen_tree(rng, big=False):
                 spec.append((p, "d", None))
                 subdirs.append(p)
             elif r < 0.85:
-                spec.append((p, "l", rng.choice(["nowhere", "../out/zz-none", "/zz-none"])))   # dangling
+                spec.append((p, "l", rng.choice(["nowhere", "../out/zz-none", "ROOT/zz-none"])))   # dangling
             elif r < 0.90:
                 spec.append((p, "l", rng.choice(["../out", "../out/keep.txt", "ROOT/out"])))   # outside
             else:
@@ -115,7 +115,7 @@ def gen_text(rng, mode, rel, fresh):
     if r < 0.90:
         return ("text", rng.choice([
             "../x", "../in2/x", "../out/x", "new/..", "a/../b", "./a", "a//b", "", ".", "..",
-            "a/./c", "../in/q", "n1/../../out/q", "new/../../in/w", "a/", "../in2", "/zz-none/x",
+            "a/./c", "../in/q", "n1/../../out/q", "new/../../in/w", "../new/../in/w", "../new/../in2/w", "a/../../nw/../in/v", "a/", "../in2", "/proc/zz-none/x",
             rng.choice(POOL) + "/" + rng.choice(POOL) + "/" + rng.choice(POOL),
             rng.choice(POOL) + "/../" + rng.choice(POOL)]))
     return ("abs", rng.choice(["in/" + rng.choice(POOL), "out/x", "in2/y", "in/n1/z", "in"]))
@@ -270,6 +270,9 @@ def run_impl(scn, keep_snapshots=True):
         obs = {
             "status": res.status, "exception": res.exception,
             "initial": canon(snap0, ids, root), "final": canon(final, ids, root),
+            "dirs_initial": {rel: v[1] for rel, v in snap0.items() if v[0] == "dir"},
+            "dirs_final": {rel: v[1] for rel, v in final.items() if v[0] == "dir"},
+            "root_ino": os.lstat(root).st_ino,
             "snapshots": [canon(s, ids, root) for s in tr.snapshots] if keep_snapshots else [],
             "calls": calls, "raw_calls": [(c["name"], [a.replace(root, "ROOT") for a in c["args"]],
                                            c["cwd"].replace(root, "ROOT"), c["outcome"]) for c in tr.calls],
@@ -431,7 +434,7 @@ def fs_primitive_cases(rng, n):
     """random trees x random operations executed for real; returns list of Gallina cases + metas"""
     cases, metas = [], []
     paths = ["a", "b", "c", "a/b", "a/../b", "k", "k/..", "nowhere", "a/x.txt", "0", "1", "../out", "../out/keep.txt",
-             "..", "a/b/c", ".h", "n1/n2", "n1", "a b", "0/..", "ROOT/out", "ROOT/in/a", "/zz-none", "b/../../in/a",
+             "..", "a/b/c", ".h", "n1/n2", "n1", "a b", "0/..", "ROOT/out", "ROOT/in/a", "ROOT/zz-none", "b/../in/a",
              "é", "2", "x.txt", "y.txt", "c/..", "1/2"]
     for _ in range(n):
         spec, inputs = gen_tree(rng)
@@ -511,3 +514,173 @@ def check_fs_primitives(chk, n):
     for m in mism:
         chk.corr_fail("Corr.PipeCorr.fsop_ok (FS.Model vs the kernel / os / shutil / pathlib)", metas[m])
     return len(cases)
+
+
+# ------------------------------------------------------------------------------- shared oracles / helpers
+
+def leaf_multiset(c):
+    """non-directory entries of a canonical snapshot, without their paths"""
+    return sorted((v[0], v[1], v[2]) for v in c.values() if v[0] != "d")
+
+
+def is_override_answer(a):
+    l = a.lower()
+    return bool(l) and "override".startswith(l) and not "ignore".startswith(l) and not "stop".startswith(l)
+
+
+def safe_scenario(scn):
+    """the property's own reading of 'the user did not choose override'"""
+    if scn["strategy"] in ("stop", "ignore"):
+        return True
+    if scn["strategy"] == "manual":
+        return not any(is_override_answer(a) for a in scn["answers"])
+    return False
+
+
+def with_faults(rng, scn, obs, max_faults=3):
+    """scenarios identical to scn but with an injected OSError at some of its counted calls"""
+    n = len(obs["calls"])
+    if n == 0:
+        return []
+    ks = list(range(n))
+    rng.shuffle(ks)
+    out = []
+    for k in sorted(ks[:max_faults]):
+        s2 = dict(scn)
+        s2["fault"] = k
+        out.append(s2)
+    return out
+
+
+def stats_of(scns, obss):
+    import collections
+    st = {"mode": collections.Counter(), "strategy": collections.Counter(), "status": collections.Counter(),
+          "dry": 0, "faulted": 0, "inputs": collections.Counter(), "plan_len": collections.Counter(),
+          "calls": collections.Counter(), "tree_entries": collections.Counter(), "symlinks": 0,
+          "deferred_or_conflict_runs": 0, "prompts": 0, "copy_fallback_excluded": 0}
+    for s, o in zip(scns, obss):
+        st["mode"][s["mode"]] += 1
+        st["strategy"][s["strategy"]] += 1
+        st["status"][str(o["status"])] += 1
+        st["dry"] += 1 if s["dry"] else 0
+        st["faulted"] += 1 if s["fault"] is not None else 0
+        st["inputs"][len(s["inputs"])] += 1
+        st["plan_len"][min(len(s["plan"]), 10)] += 1
+        st["calls"][min(len(o["calls"]), 12)] += 1
+        st["tree_entries"][min(len(o["initial"]) // 5 * 5, 40)] += 1
+        st["symlinks"] += sum(1 for v in o["initial"].values() if v[0] == "l")
+        st["prompts"] += o["prompts"]
+        if not modelable(o):
+            st["copy_fallback_excluded"] += 1
+    return {k: (dict(v) if hasattr(v, "items") else v) for k, v in st.items()}
+
+
+# ------------------------------------------------------------------------------- plan analysis (oracles of C02/C03)
+
+def _parts(p):
+    return [c for c in p.split("/") if c not in ("", ".")]
+
+
+def analyse(scn, init):
+    """Independent reading of a plan.  Returns None when the scenario is outside the 'clean' family the
+    C02/C03 oracles speak about (raising templates, invalid or escaping names, '..', absolute paths,
+    symbolic links or missing sources on any path involved, a file designated twice), else a dict:
+      moves: [(src, dst)] effective moves (dst != src), paths relative to the sandbox root
+      stays: [src] selected entries whose generated path equals their own"""
+    moves, stays, seen = [], [], set()
+    for e in scn["plan"]:
+        kind, val = e["r"]
+        if kind != "text":
+            return None
+        src = e["dir"].split("/") + _parts(e["rel"])
+        if scn["mode"] == "path":
+            if val.startswith("/") or val.endswith("/") and False:
+                return None
+            d = _parts(val)
+            if not d or ".." in d:
+                return None
+            dst = e["dir"].split("/") + d
+        else:
+            if val in ("", ".", "..") or "/" in val:
+                return None
+            dst = src[:-1] + [val]
+        s, d = "/".join(src), "/".join(dst)
+        if s in seen or s not in init:
+            return None
+        seen.add(s)
+        if e["spelled"] != e["dir"]:
+            pass
+        for path, final_too in ((src, False), (dst, True)):
+            for i in range(1, len(path) + 1):
+                p = "/".join(path[:i])
+                # a destination that IS a symbolic link "resolves elsewhere" (C06) and is refused: not in this family
+                if p in init and init[p][0] == "l" and (i < len(path) or final_too):
+                    return None
+        if init[s][0] == "l" and False:
+            return None
+        if d in init and init[d][0] == "l" and False:
+            return None
+        if s == d:
+            stays.append(s)
+        else:
+            moves.append((s, d))
+    dsts = [d for _, d in moves]
+    # a selected symbolic link renamed onto a name that another entry is rendered to as well: once the real run
+    # has done that rename the shared destination IS a link and "resolves elsewhere" (C06): not in this family
+    if any(init[sx][0] == "l" and dsts.count(dx) > 1 for sx, dx in moves):
+        return None
+    nested = any(a != b and b.startswith(a + "/") for a in dsts for b in dsts) or \
+        any(anc in init and init[anc][0] != "d" for d in dsts for anc in ["/".join(d.split("/")[:i]) for i in range(1, len(d.split("/")))])
+    return {"moves": moves, "stays": stays, "nested": nested}
+
+
+def conflicts(scn, init, an):
+    """For each move: is its destination 'conflicting' in the property's sense — it already existed,
+    another selected file has the same destination, or (path mode) one destination lies on/beneath another
+    destination or beneath an existing non-directory."""
+    out = {}
+    dsts = [d for _, d in an["moves"]]
+    for s, d in an["moves"]:
+        c = d in init or dsts.count(d) > 1
+        if scn["mode"] == "path":
+            dp = d.split("/")
+            for i in range(1, len(dp)):
+                anc = "/".join(dp[:i])
+                if anc in init and init[anc][0] != "d":
+                    c = True
+                if anc in dsts:
+                    c = True
+            if any(o != d and o.startswith(d + "/") for o in dsts):
+                c = True
+        out[(s, d)] = c
+    return out
+
+
+def expected_final(scn, init, an):
+    """the plan applied simultaneously to the initial tree (name/path mode: selected entries are non-directories;
+    directory mode: a renamed directory carries its subtree, renamed ancestors apply too)"""
+    mv = dict(an["moves"])
+    out = {}
+    if scn["mode"] == "directory":
+        for p, v in init.items():
+            comps = p.split("/")
+            new = []
+            for i in range(len(comps)):
+                pre = "/".join(comps[: i + 1])
+                new.append(mv[pre].split("/")[-1] if pre in mv else comps[i])
+            out["/".join(new)] = v
+        return out
+    for p, v in init.items():
+        if p in mv:
+            continue
+        out[p] = v
+    for s, d in mv.items():
+        out[d] = init[s]
+        dp = d.split("/")
+        for i in range(1, len(dp)):
+            out.setdefault("/".join(dp[:i]), ("d",))
+    return out
+
+
+def strip_hash(c):
+    return {p: v[:2] if v[0] == "f" else v for p, v in c.items()}
